@@ -12,7 +12,7 @@ for rf in results:
         ok = clean == "0" and build == "0" and patched != "0" and "missing=0" in suite
         if not ok:
             print("NOT CONFIRMED:", line.strip()); continue
-        src = os.path.join(out, sid); dst = os.path.join("/verif/seeded", sid)
+        src = os.path.join(out, sid); dst = os.path.join(os.environ.get("DEST", "/verif/seeded"), sid)
         os.makedirs(dst, exist_ok=True)
         for f in ("patch.diff", "demo_test.go"):
             shutil.copy(os.path.join(src, f), os.path.join(dst, f))
